@@ -623,6 +623,12 @@ int main(int argc, char *argv[]) {
     switch (flag) {
     case CO_oc:
       output_code_filename = optarg;
+      if (output_code_filename.empty()) {
+        // An empty name is not the same as no -oc at all: there is a file we
+        // were asked to write and cannot.
+        nout << "The -oc option requires a filename.\n";
+        exit(1);
+      }
       break;
 
     case CO_module:
